@@ -210,19 +210,16 @@ def run(ctx):
             (d_two, tasks_two_sync(ctx) + tasks_two_async(ctx, stale_window=False), False),
             (d_two_s, tasks_two_sampled(ctx), False),
         ]
-        if ctx.is_known(H.STALE_WINDOW):
-            d_stale = ctx.domain(
-                "second submission with rerun=True: handed-out jobs that have not started yet (stale window)",
-                bound=f"{two}, asynchronous loop, rerun=True, propagate_rerun=True, prior in {{all, partial}}: the lock file of a job handed to the worker is never seen before its new result / per-job choice of seen-at-next-observation or never",
-                rule="one case = one second-submission history; same contract as above",
-                exhaustive=True,
-            )
-            groups.append((d_stale, tasks_two_async(ctx, stale_window=True), False))
-        else:
-            ctx.note(
-                f"NOT RUN: second-submission histories in which a job handed to the worker has not started by the next observation (its old result is still on disk). They fail on this "
-                f"tree (a consumer is started with the producer's value from the FIRST submission; class {H.STALE_WINDOW}) and are enumerated only once that class is listed as a known finding."
-            )
+        # histories in which a job handed to the worker has NOT started by the next observation (its old result is still
+        # on disk): these failed before pydra's fix "a stored result doesn't count while a rerun is pending"
+        # (class H.STALE_WINDOW, see known_findings.jsonl: fixed) and are always enumerated
+        d_stale = ctx.domain(
+            "second submission with rerun=True: handed-out jobs that have not started yet (stale window)",
+            bound=f"{two}, asynchronous loop, rerun=True, propagate_rerun=True, prior in {{all, partial}}: the lock file of a job handed to the worker is never seen before its new result / per-job choice of seen-at-next-observation or never",
+            rule="one case = one second-submission history; same contract as above",
+            exhaustive=True,
+        )
+        groups.append((d_stale, tasks_two_async(ctx, stale_window=True), False))
         stats = H.run_domains(ctx, "C15", groups)
         tot = {}
         for st in stats:
